@@ -3,12 +3,15 @@
   std_fns              sql/std.sql.prql through prqlc's own parser (harness `parsefile`): per dialect module and
                        function, the annotations window_frame / coalesce
   window_defaults      semantic/std.prql: defaults of `window`'s named parameters rows/range/expanding/rolling
-  code_frame_of        semantic/resolver/transforms.rs, "window": the if/else chain -> (kind,start,end) and range_is_empty
+  code_frame_of        semantic/resolver/transforms.rs, "window": the loop that rejects empty ranges (which arguments, the exempt
+                       spelling, the message), the if/else chain -> (kind,start,end) and range_is_empty
   code_default_frame,  sql/gen_expr.rs translate_windowed / try_into_window_frame: the frame that is elided, the
   code_parse_bound,    elision condition, the bound arms (0 / 1.. / _) and the unbounded bounds
   code_emit_frame
   complexity rules     sql/pq/anchor.rs: Complexity order, infer_complexity, can_materialize, what each consumer allows
-  propagation shapes   semantic/resolver/flatten.rs, semantic/lowering.rs: partition/frame/sort reach Compute.window
+  code_scope_policy,   semantic/resolver/flatten.rs: how the partition / window fields are saved, overwritten and written back
+  propagation shapes   around group bodies, window bodies and relational arguments; semantic/lowering.rs: partition/frame/sort
+                       reach Compute.window
 Each extractor is a small scanner over one function; anything that does not have the modelled shape raises
 ExtractError and a stub is written, so the theorems of Props/C04.v that mention GenWindow stop compiling."""
 import json
@@ -189,6 +192,28 @@ def extract_transforms():
     ch = re.search(r"let \(kind, start, end\) = (if .*?\});", body)
     if not ch:
         raise ExtractError("window: `let (kind, start, end) = if ..` chain not found")
+    # what stands between the reading of `range` and the decision chain: nothing (the tree before 7b31f75) or the
+    # loop that rejects an empty range other than the "not given" spelling
+    mrange = re.search(r"let range = \{ let range_tuple = try_restrict_range\(range\)\.map_err\(.*?\)\?; into_literal_range\(range_tuple\)\? \};", body)
+    between = body[mrange.end():ch.start()].strip()
+    reject = {"order": [], "not_given": None, "message": None}
+    if between:
+        ml = re.fullmatch(r"for \(name, r\) in \[(.*?)\] \{ if range_is_empty\(r\) && \*r != \((None|Some\(-?\d+\)), (None|Some\(-?\d+\))\) \{ "
+                          r"return Err\(Error::new_simple\(format!\( \"(.*?)\" \)\)\); \} \}", between)
+        if not ml:
+            raise ExtractError("window: text between the arguments and the decision chain not understood: %r" % between[:160])
+        pairs = re.findall(r'\("(\w+)", &(\w+)\)', ml.group(1))
+        if re.sub(r"\s+", "", ", ".join('("%s", &%s)' % p for p in pairs)) != re.sub(r"\s+", "", ml.group(1)) or not pairs:
+            raise ExtractError("window: list of checked arguments not understood: %r" % ml.group(1))
+        for nm, var in pairs:
+            if nm != var or nm not in ("rows", "range"):
+                raise ExtractError("window: rejection loop names `%s` for the variable `%s`" % (nm, var))
+
+        def ob(x):
+            return None if x == "None" else int(x[5:-1])
+        reject = {"order": [nm for nm, _ in pairs], "not_given": (ob(ml.group(2)), ob(ml.group(3))), "message": ml.group(4)}
+        if reject["message"] != "window: `{name}` is an empty range (its start is after its end)":
+            raise ExtractError("window: the empty-range error message changed: %r" % reject["message"])
     chain = ch.group(1)
     branches = []
 
@@ -237,7 +262,7 @@ def extract_transforms():
     ilr = fn_text(TRANSFORMS, "into_literal_range")
     if not re.search(r"ExprKind::Literal\(Literal::Null\) => Ok\(None\), ExprKind::Literal\(Literal::Integer\(i\)\) => Ok\(Some\(i\)\),", ilr):
         raise ExtractError("into_literal_range changed")
-    return {"branches": branches, "empty_op": mr.group(1)}
+    return {"branches": branches, "empty_op": mr.group(1), "reject": reject}
 
 
 # ----------------------------------------------------------------------------- gen_expr.rs
@@ -312,6 +337,8 @@ def extract_gen_expr():
             neg = False
         elif v == "(-as_int)":
             neg = True
+        elif v == "as_int.unsigned_abs()":
+            neg = "abs"
         else:
             raise ExtractError("parse_bound: number expression not understood: %r" % v)
         parsed.append((pat, mm.group(1), neg))
@@ -391,6 +418,14 @@ def extract_reorder():
     m = mask(src)
     s, e = block_after(src, m, r"fn\s+reorder\s*\([^{]*\{")
     body = src[s:e]
+    if re.search(r"fn\s+reorder_inner\s*\(", src):
+        # `reorder` is a wrapper that logs (cfg prqlc_verif only) around `reorder_inner`: without the statements
+        # under #[cfg(prqlc_verif)] it must do nothing else
+        w = re.sub(r"#\[cfg\(prqlc_verif\)\] [^;]*;", "", norm(body)).strip()
+        if re.sub(r"\s+", " ", w) != "pipeline = reorder_inner(pipeline); pipeline":
+            raise ExtractError("reorder: the wrapper around reorder_inner does more than call it: %r" % w[:160])
+        s, e = block_after(src, m, r"fn\s+reorder_inner\s*\(mut pipeline: Vec<SqlTransform>\) -> Vec<SqlTransform>\s*\{")
+        body = src[s:e]
     mb = mask(body)
     ms_, me_ = block_after(body, mb, r"let\s+should_swap\s*=\s*match\s+prev\s*\{")
     arms = match_arms(body, mb, ms_, me_)
@@ -420,18 +455,85 @@ def extract_reorder():
 
 
 # ----------------------------------------------------------------------------- flatten.rs / lowering.rs (shapes)
+def occurrences(text, field):
+    """every use of self.<field> in flatten.rs, as `self.<field><what follows up to the next ; , ) or space>`"""
+    return sorted(re.findall(r"self\.%s\b(?:\.\w+\([^()]*\)| = [^;]*)?" % field, text))
+
+
 def extract_propagation():
     fl = norm(read(FLATTEN))
     checks = {
-        "group sets the partition for its inner pipeline": r"self\.replace_map\.insert\(param_id, input\); self\.partition = Some\(by\); self\.sort\.clear\(\); let pipeline = self\.fold_expr\(\*pipeline\.body\)\?; self\.replace_map\.remove\(&param_id\); self\.partition = None; self\.sort\.clear\(\);",
-        "window sets the frame for its inner pipeline": r"self\.replace_map\.insert\(param_id, tbl\); self\.window = WindowFrame \{ kind, range \}; let pipeline = self\.fold_expr\(\*pipeline\.body\)\?; self\.window = WindowFrame::default\(\);",
         "sort sets the order for downstream transforms": r"TransformKind::Sort \{ by \} => \{ let by = fold_column_sorts\(self, by\)\?; let input = self\.fold_expr\(\*t\.input\)\?; self\.sort\.clone_from\(&by\);",
         "every transform call gets partition, frame and sort": r"ExprKind::TransformCall\(TransformCall \{ input: Box::new\(input\), kind: Box::new\(kind\), partition: self\.partition\.clone\(\), frame: self\.window\.clone\(\), sort, \}\)",
         "sort is dropped only behind join/append": r"let sort = if matches!\(kind, TransformKind::Join \{ \.\. \} \| TransformKind::Append\(_\)\) \{ vec!\[\] \} else \{ self\.sort\.clone\(\) \};",
+        "the walk starts from Flattener::default()": r"#\[derive\(Default, Debug\)\] pub struct Flattener \{.*?partition: Option<Box<Expr>>,.*?window: WindowFrame,.*?\} impl Flattener \{ pub fn fold\(expr: Expr\) -> Expr \{ let mut f = Flattener::default\(\); f\.fold_expr\(expr\)\.unwrap\(\) \} \}",
     }
     for what, pat in checks.items():
         if not re.search(pat, fl):
             raise ExtractError("flatten.rs: %s -- no longer has the modelled shape" % what)
+    pol = {}
+    # group: the partition is set for the body; restored (592b6f8) or reset (before) behind it
+    g_new = r"self\.replace_map\.insert\(param_id, input\); let outer_partition = self\.partition\.replace\(by\); self\.sort\.clear\(\); let pipeline = self\.fold_expr\(\*pipeline\.body\)\?; self\.replace_map\.remove\(&param_id\); self\.partition = outer_partition; self\.sort\.clear\(\);"
+    g_old = r"self\.replace_map\.insert\(param_id, input\); self\.partition = Some\(by\); self\.sort\.clear\(\); let pipeline = self\.fold_expr\(\*pipeline\.body\)\?; self\.replace_map\.remove\(&param_id\); self\.partition = None; self\.sort\.clear\(\);"
+    w_new = r"self\.replace_map\.insert\(param_id, tbl\); let outer_window = std::mem::replace\(&mut self\.window, WindowFrame \{ kind, range \}\); let pipeline = self\.fold_expr\(\*pipeline\.body\)\?; self\.window = outer_window;"
+    w_old = r"self\.replace_map\.insert\(param_id, tbl\); self\.window = WindowFrame \{ kind, range \}; let pipeline = self\.fold_expr\(\*pipeline\.body\)\?; self\.window = WindowFrame::default\(\);"
+    if not re.search(r"TransformKind::Group \{ by, pipeline \} => \{.*?let input = self\.fold_expr\(\*t\.input\)\?;.*?" + g_new.split("; ")[0], fl) and not re.search(g_old, fl):
+        raise ExtractError("flatten.rs: group sets the partition for its inner pipeline -- no longer has the modelled shape")
+    uses_p, uses_w = [], []
+    if re.search(g_new, fl):
+        pol["group_exit"] = "ExitRestore"
+        uses_p += ["self.partition.replace(by)", "self.partition = outer_partition"]
+    elif re.search(g_old, fl):
+        pol["group_exit"] = "ExitReset"
+        uses_p += ["self.partition = Some(by)", "self.partition = None"]
+    else:
+        raise ExtractError("flatten.rs: group sets the partition for its inner pipeline -- no longer has the modelled shape")
+    if re.search(w_new, fl):
+        pol["window_exit"] = "ExitRestore"
+        uses_w += ["self.window", "self.window = outer_window"]          # &mut self.window inside mem::replace
+    elif re.search(w_old, fl):
+        pol["window_exit"] = "ExitReset"
+        uses_w += ["self.window = WindowFrame { kind, range }", "self.window = WindowFrame::default()"]
+    else:
+        raise ExtractError("flatten.rs: window sets the frame for its inner pipeline -- no longer has the modelled shape")
+    # the input of a group / window is folded BEFORE the field is overwritten (it belongs to the enclosing scope)
+    if not re.search(r"TransformKind::Group \{ by, pipeline \} => \{ .*?let input = self\.fold_expr\(\*t\.input\)\?; let pipeline = pipeline\.kind\.into_func\(\)\.unwrap\(\);", fl) \
+            or not re.search(r"TransformKind::Window \{ kind, range, pipeline, \} => \{ let tbl = self\.fold_expr\(\*t\.input\)\?; let pipeline = pipeline\.kind\.into_func\(\)\.unwrap\(\);", fl):
+        raise ExtractError("flatten.rs: the input of a group / window is folded before its body -- no longer has the modelled shape")
+    # relational arguments (join / append / loop)
+    msub = re.search(r"let has_sub_pipeline = matches!\( kind, TransformKind::Join \{ \.\. \} \| TransformKind::Append\(_\) \| TransformKind::Loop\(_\) \); "
+                     r"if has_sub_pipeline \{ let sort = std::mem::take\(&mut self\.sort\); let sort_undone = std::mem::replace\(&mut self\.sort_undone, false\); (.*?)"
+                     r"let kind = fold_transform_kind\(self, kind\)\?; self\.sort = sort; self\.sort_undone = sort_undone; (.*?)\(input, kind\) \} else \{ \(input, fold_transform_kind\(self, kind\)\?\) \}", fl)
+    if not msub:
+        raise ExtractError("flatten.rs: relational arguments are folded as pipelines of their own -- no longer has the modelled shape")
+    save = [x.strip() for x in msub.group(1).split(";") if x.strip()]
+    back = [x.strip() for x in msub.group(2).split(";") if x.strip()]
+    SAVE = {"let partition = self.partition.take()": "partition", "let window = std::mem::take(&mut self.window)": "window"}
+    BACK = {"self.partition = partition": "partition", "self.window = window": "window"}
+    if any(x not in SAVE for x in save) or any(x not in BACK for x in back) or sorted(SAVE[x] for x in save) != sorted(BACK[x] for x in back):
+        raise ExtractError("flatten.rs: what a relational argument saves (%r) and writes back (%r) is not understood" % (save, back))
+    iso = {SAVE[x] for x in save}
+    pol["sub_partition"], pol["sub_window"] = "partition" in iso, "window" in iso
+    if pol["sub_partition"]:
+        uses_p += ["self.partition.take()", "self.partition = partition"]
+    if pol["sub_window"]:
+        uses_w += ["self.window", "self.window = window"]
+    # an aggregate outside a group ends the sort in effect (8d54bf7)
+    m_es = re.search(r"ends_sort = self\.partition\.is_none\(\) && matches!\(kind, TransformKind::Aggregate \{ \.\. \}\);", fl)
+    if m_es:
+        if not re.search(r"let mut ends_sort = false;", fl) or not re.search(r"\}; if ends_sort \{ self\.sort\.clear\(\); \} ExprKind::TransformCall\(", fl):
+            raise ExtractError("flatten.rs: an ungrouped aggregate ends the sort -- no longer has the modelled shape")
+        uses_p += ["self.partition.is_none()"]
+    elif "ends_sort" in fl:
+        raise ExtractError("flatten.rs: ends_sort is computed in a way that is not understood")
+    pol["aggregate_ends_sort"] = bool(m_es)
+    # nothing else touches the two fields
+    uses_p += ["self.partition.clone()"]
+    uses_w += ["self.window.clone()"]
+    if occurrences(fl, "partition") != sorted(uses_p):
+        raise ExtractError("flatten.rs: self.partition is used in a way that is not modelled: %r" % occurrences(fl, "partition"))
+    if occurrences(fl, "window") != sorted(uses_w):
+        raise ExtractError("flatten.rs: self.window is used in a way that is not modelled: %r" % occurrences(fl, "window"))
     lw = norm(read(LOWERING))
     checks = {
         "the current window is built from the transform call's frame, partition and sort": r"let window = rq::Window \{ frame: WindowFrame \{ kind: transform_call\.frame\.kind, range: self\.lower_range\(transform_call\.frame\.range\)\?, \}, partition: if let Some\(partition\) = transform_call\.partition \{ self\.declare_as_columns\(\*partition, false\)\? \} else \{ vec!\[\] \}, sort: self\.lower_sorts\(transform_call\.sort\)\?, \}; self\.window = Some\(window\);",
@@ -441,7 +543,7 @@ def extract_propagation():
     for what, pat in checks.items():
         if not re.search(pat, lw):
             raise ExtractError("lowering.rs: %s -- no longer has the modelled shape" % what)
-    return True
+    return pol
 
 
 def extract():
@@ -479,13 +581,22 @@ def generate():
     t = info["transforms"]
     v += "(* semantic/resolver/transforms.rs *)\n"
     v += "Definition code_range_is_empty (r : bounds) : bool := match r with (Some s, Some e) => %s | _ => false end.\n" % ("e <? s" if t["empty_op"] == ">" else "e <=? s")
-    v += "Definition code_frame_of (rows range_ : bounds) (expanding : bool) (rolling : Z) : frame3 :=\n"
+    v += "Definition code_frame_chain (rows range_ : bounds) (expanding : bool) (rolling : Z) : frame3 :=\n"
     for cond, kind, a, b in t["branches"]:
         tup = "(K%s, %s, %s)" % (kind, a, b)
         if cond is None:
-            v += "  %s.\n\n" % tup
+            v += "  %s.\n" % tup
         else:
             v += "  if %s then %s else\n" % (cond.replace("range_is_empty", "code_range_is_empty"), tup)
+    rj = t["reject"]
+    v += "(* the loop in front of the chain: which arguments are checked, in which order, and the spelling that is exempt *)\n"
+    v += "Definition code_reject_order : list warg := [%s].\n" % "; ".join({"rows": "ARows", "range": "ARange"}[x] for x in rj["order"])
+    ng = rj["not_given"]
+    v += "Definition code_not_given : option bounds := %s.\n" % ("None" if ng is None else "Some (%s, %s)" % (coq_oz(ng[0]), coq_oz(ng[1])))
+    v += ("Definition code_rejected (r : bounds) : bool := code_range_is_empty r && negb (match code_not_given with Some d => bounds_eqb r d | None => false end).\n"
+          "Definition code_frame_of (rows range_ : bounds) (expanding : bool) (rolling : Z) : wresult :=\n"
+          "  match find (fun x => code_rejected (match x with ARows => rows | ARange => range_ end)) code_reject_order with\n"
+          "  | Some x => WEmptyRange x\n  | None => WFrame (code_frame_chain rows range_ expanding rolling)\n  end.\n\n")
     g = info["gen_expr"]
     v += "(* sql/gen_expr.rs *)\n"
 
@@ -496,11 +607,13 @@ def generate():
     v += "Definition code_parse_bound (z : Z) : sbound :=\n"
     for pat, ctor, neg in g["arms"]:
         cond = {"0": "z =? 0", "1..": "1 <=? z", "..=-1": "z <=? -1", "..0": "z <? 0", "_": None}[pat]
-        val = "S%s" % ctor if ctor == "CurrentRow" else "S%s (Some (%s))" % (ctor, "- z" if neg else "z")
+        val = "S%s" % ctor if ctor == "CurrentRow" else "S%s (Some (%s))" % (ctor, "Z.abs z" if neg == "abs" else "- z" if neg else "z")
         if cond is None:
             v += "  %s.\n" % val
             break
         v += "  if %s then %s else\n" % (cond, val)
+    v += "(* is the distance of a PRECEDING bound computed by an operation that is total on i64 (unsigned_abs), or by `-as_int` (overflows for i64::MIN)? *)\n"
+    v += "Definition code_bound_distance_total : bool := %s.\n" % ("true" if all(neg in (None, False, "abs") for _, _, neg in g["arms"]) else "false")
     v += "Definition code_units (k : wkind) : wkind := match k with KRows => K%s | KRange => K%s end.\n" % g["units"]
     v += "Definition code_to_sframe (f : frame3) : sframe :=\n  match f with (k, a, b) => mk_sframe (code_units k) (match a with Some z => code_parse_bound z | None => S%s None end) (match b with Some z => code_parse_bound z | None => S%s None end) end.\n" % (g["open_start"], g["open_end"])
     v += "Definition code_emit_frame (supports sorted : bool) (f : frame3) : option sframe :=\n  if supports && negb (frame3_eqb f (code_default_frame sorted)) then Some (code_to_sframe f) else None.\n\n"
@@ -529,6 +642,10 @@ def generate():
     v += "(* sql/pq/preprocess.rs reorder: is a Compute of complexity c pulled in front of a preceding Take / Sort / anything else? *)\n"
     v += "Definition reorder_before_take (c : cx) : bool := %s.\n" % cond
     v += "Definition reorder_before_sort : bool := %s.\nDefinition reorder_before_other : bool := %s.\n\n" % ("true" if ro["sort"] else "false", "true" if ro["other"] else "false")
+    pp = info["propagation"]
+    v += "(* semantic/resolver/flatten.rs: what happens to the `partition` / `window` fields around a group body, a window body and a relational argument *)\n"
+    v += "Definition code_scope_policy : scope_policy := mk_scope_policy %s %s %s %s.\n" % (pp["group_exit"], pp["window_exit"], "true" if pp["sub_partition"] else "false", "true" if pp["sub_window"] else "false")
+    v += "Definition code_aggregate_ends_sort : bool := %s.\n" % ("true" if pp["aggregate_ends_sort"] else "false")
     v += "(* semantic/resolver/flatten.rs and semantic/lowering.rs have the modelled shape (group -> partition, window -> frame, sort -> order; Compute.window := current window) *)\nDefinition propagation_shape_ok : bool := true.\n"
     gen_write("GenWindow", v)
     return info
